@@ -397,6 +397,11 @@ fn run_phase(prop: &str, tier: &str, batch: u64, flavour: &str, total: u64, work
                     died.push(l);
                 }
                 done += histories_started.max(1);
+                // a tree on which runs keep killing or stalling the process has failed the check;
+                // there is no point in restarting workers thousands of times
+                if died.len() + hung.len() >= 8 {
+                    break;
+                }
             }
             (agg, viols, died, hung)
         }));
